@@ -2334,6 +2334,14 @@ func (c *compiler) VisitAssignStmt(s *ast.AssignStmt) ast.VisitResult {
 		index = c.floatOrByteAsInt(index, indexTyp)
 		c.cbb.NewCall(c.ddpstring.replaceCharIrFun, lhs, rhs, index)
 	} else {
+		// a non-temporary right hand side may be (a part of) the assigned variable itself,
+		// so it has to be copied before the old value is freed
+		if !isTempRhs && !rhsTyp.IsPrimitive() {
+			dest := c.NewAlloca(rhsTyp.IrType())
+			rhs, rhsTyp = c.scp.addTemporary(c.deepCopyInto(dest, rhs, rhsTyp), rhsTyp)
+			isTempRhs = true
+		}
+
 		c.freeNonPrimitive(lhs, lhsTyp) // free the old value in the variable/list
 
 		// implicit cast to any if required
